@@ -157,4 +157,12 @@ Definition run_gcase (c : gcase) : list (list Z) :=
     end
   end.
 
-Definition check_gen (c : gcase * list (list Z)) : bool := zll_eqb (run_gcase (fst c)) (snd c).
+(* delay lengths clamped to the run's bound first (see SigRun.norm_case; SigRunNormProofs.run_ops_norm) *)
+Definition norm_gcase (c : gcase) : gcase :=
+  match c with
+  | GCase code n ts ops => let b := norm_bound ops in GCase code n (map (clamp_tree b) ts) (map (clamp_op b) ops)
+  end.
+
+Definition run_gcase_norm (c : gcase) : list (list Z) := run_gcase (norm_gcase c).
+
+Definition check_gen (c : gcase * list (list Z)) : bool := zll_eqb (run_gcase_norm (fst c)) (snd c).
